@@ -87,6 +87,20 @@ CHECKS["C12"] = dict(
     ref="5/C12",
 )
 
+CHECKS["C08"] = dict(
+    technique="TLA+ specification of variable-font instancing (Instancer.tla over VarSem/Tent/Rat: operational steps vs declarative contract) model-checked on whole lattices; TLC-exported (store, limits) cases replayed into the real store-level functions and into model fonts through instantiateVariableFont; corpus variable fonts x seeded limits judged by TLC from projections of original and instance at the same user-space locations",
+    text="TLC applies the operational instancing steps (normalise limits, rebase each tent, scale, merge equal regions, fold the default, round; avar and feature-variation condition renormalisation) to every abstract font x limit of five families (one / two axes, several delta sets, avar segment maps, feature variations) and compares with the declarative contract at every half-step point of the new space: Preserved exactly before rounding and within the derived budget after, AxesCorrect, Static, TentsInRange, FeatureVars. Every exported case is replayed into the real instantiateTupleVariationStore / instantiateItemVariationStore / instantiateGvarGlyph / _instantiateFeatureVariations (exact rationals) and, as model fonts (glyf, gvar, HVAR with and without map, MVAR, cvar, GDEF/GPOS devices, avar, feature variations, STAT, named instances), through instantiateVariableFont; all 49 variable corpus fonts x 10 seeded limit specifications are projected before and after and evaluated by TLC at the same user locations with the rounding budget derived in the specification, plus table presence for full instances, fvar axes, named instances, STAT values and HarfBuzz-observed substitutions and advances.",
+    note="Trusted: TLC, the projection of a font to (axes, regions, items), exact-rational recovery of floats, HarfBuzz for advances/substitutions only. Fonts with more than 6 axes, without a name table, with GPOS feature variations, or whose arithmetic leaves 31 bits are skipped and counted. One open known finding (feature-variation record whose conditions all lie on pinned axes).",
+    ref="5/C08 and 12",
+)
+
+CHECKS["C18"] = dict(
+    technique="TLA+ specification of the font merger's stages (Merge.tla: mega glyph order, mega cmap with the duplicate rule, table merge, layout index remapping, synthesized locl lookup) model-checked incl. negative variants; TLC-exported font lists realised as real TrueType/CFF fonts and merged by the real Merger; corpus tuples; projections and HarfBuzz observations judged by TLC",
+    text="TLC checks FirstWins, UniqueNames, Totals, GlyphsKept, DuplicateRule and DisjointShaping (through OTLSem) on every pair / triple of abstract fonts of small families (clashing names, overlapping / disjoint / conflicting cmaps, identical and differing duplicates, five layout kits over three scripts), checks that each of eight wrong-stage variants is rejected, and exports the lists; each is realised with FontBuilder + feaLib in both flavours and merged by the real Merger, as are seed-rotated 2-4-tuples of corpus fonts (as they are and with cmaps relocated to disjoint private-use blocks). TLC judges the projected result: every character maps to a glyph with the outline and advance of the first input supporting it, glyph names unique in memory and in the saved file, glyph totals, differing duplicates reachable through locl, and - for disjoint inputs - HarfBuzz shaping of each input alone equal to shaping with the merged font, plus the predicted mega glyph order, mega cmap and (model fonts) predicted layout.",
+    note="Trusted: TLC, the projections, HarfBuzz under explicit script/language/features. Inputs the merger refuses (its own errors, mixed flavours, differing OS/2 versions) are skipped and counted; identical duplicates are never identified by the code (the documented identification is disabled), modelled as the named deviation.",
+    ref="5/C18 and 12",
+)
+
 NOT_YET = "check not built yet in this round (see DESIGN.md section 10 for the build order)"
 
 
